@@ -224,7 +224,7 @@ unsafe impl<'a> BufMut for NodeMut<'a> {
 pub fn gen_wplan(rng: &mut Rng, depth: usize) -> J {
     let leafy = depth == 0 || rng.chance(2, 5);
     if leafy {
-        let k = *rng.pick(&["vec", "vec", "bytes_mut", "bytes_mut", "slice", "slice", "uninit", "uninit", "seg", "seg"]);
+        let k = *rng.pick(&["vec", "vec", "bytes_mut", "bytes_mut", "bytes_mut_arc", "slice", "slice", "uninit", "uninit", "seg", "seg"]);
         let cap = match rng.below(8) {
             0 => 0,
             1 => 1,
@@ -237,6 +237,11 @@ pub fn gen_wplan(rng: &mut Rng, depth: usize) -> J {
             "vec" | "bytes_mut" => {
                 // initial contents and spare capacity (so growth is or is not triggered)
                 j = j.set("init", rng.range(0, 20)).set("seed", rng.next_u64());
+            }
+            "bytes_mut_arc" => {
+                // shared representation, sole owner again: a consumed prefix in front (offset),
+                // a split-off tail that was dropped behind — reserve has to reclaim or grow
+                j = j.set("init", rng.range(0, 12)).set("seed", rng.next_u64()).set("pre", rng.range(0, 24)).set("tail", rng.range(0, 24));
             }
             "seg" => {
                 let mut sizes = Vec::new();
@@ -289,7 +294,7 @@ impl Tm {
             "limit" => Tm::Limit { lim: p.us("lim"), inner: Box::new(Tm::from_plan(p.get("in").unwrap())) },
             "mutref" | "box" => Tm::from_plan(p.get("in").unwrap()),
             "vec" => Tm::Grow { is_vec: true, len: p.us("init") },
-            "bytes_mut" => Tm::Grow { is_vec: false, len: p.us("init") },
+            "bytes_mut" | "bytes_mut_arc" => Tm::Grow { is_vec: false, len: p.us("init") },
             "seg" => Tm::Fixed { cap: p.arr("sizes").iter().map(|x| x.as_int() as usize).sum(), filled: 0 },
             _ => Tm::Fixed { cap: p.us("cap"), filled: 0 },
         }
@@ -391,6 +396,18 @@ pub fn wbuild<'a>(p: &J, frames: &mut std::slice::IterMut<'a, Vec<MaybeUninit<u8
             let init = Rng::new(p.u64("seed")).bytes(p.us("init"));
             let mut v = BytesMut::with_capacity(init.len() + p.us("cap"));
             v.extend_from_slice(&init);
+            NodeMut::BytesMut(v)
+        }
+        "bytes_mut_arc" => {
+            let init = Rng::new(p.u64("seed")).bytes(p.us("init"));
+            let (pre, tail, cap) = (p.us("pre"), p.us("tail"), p.us("cap"));
+            let mut v = BytesMut::with_capacity(pre + init.len() + cap + tail);
+            v.extend_from_slice(&vec![0xEE; pre]);
+            v.extend_from_slice(&init);
+            let keep = pre + init.len() + cap;
+            let t = v.split_off(keep);
+            drop(t);
+            v.advance(pre);
             NodeMut::BytesMut(v)
         }
         "seg" => {
@@ -610,6 +627,8 @@ fn wcheck<B: BufMut>(cx: &mut WCtx, b: &mut B, tm: &Tm, what: &str) {
 enum WFlow {
     Continue,
     End,
+    /// the write did not fit and panicked: nothing may have changed, the run goes on
+    Refused,
 }
 
 /// One write operation on any BufMut. `written` accumulates the appended bytes, `puts`
@@ -729,6 +748,11 @@ fn do_wop<B: BufMut>(cx: &mut WCtx, b: &mut B, tm: &mut Tm, written: &mut Vec<u8
                 cx.law("write-panicked", format!("{}: chunk_mut/advance_mut loop for {} bytes panicked ({}) although {} fit", what, n, rt::panic_message(&*p), rem));
             } else {
                 cx.hit("did_not_fit_panic");
+                if name != "manual" {
+                    // an over-long write is refused as a whole: target and adapters must be exactly
+                    // as before (checked by the state checks and by the final inspection)
+                    return WFlow::Refused;
+                }
             }
             WFlow::End
         }
@@ -819,7 +843,7 @@ pub fn run(plan: &J, given: Option<&[J]>, rng: &mut Rng, max_ops: usize, journal
                         wcheck(&mut cx, &mut l, &sub, "limit(tmp)");
                         let f = if cx.viol.len() == nv { do_wop(&mut cx, &mut l, &mut sub, &mut written, &mut puts, &inner, "limit(tmp)") } else { WFlow::End };
                         if cx.viol.len() == nv {
-                            if let WFlow::Continue = f {
+                            if let WFlow::Continue | WFlow::Refused = f {
                                 wcheck(&mut cx, &mut l, &sub, "limit(tmp) after op");
                             }
                         }
@@ -831,7 +855,7 @@ pub fn run(plan: &J, given: Option<&[J]>, rng: &mut Rng, max_ops: usize, journal
                         }
                     }
                     let went = written.len() - before;
-                    if let (WFlow::Continue, true) = (&flow, cx.viol.len() == nv) {
+                    if let (WFlow::Continue | WFlow::Refused, true) = (&flow, cx.viol.len() == nv) {
                         if left != lim - went {
                             cx.v(&["C12"], "limit-bookkeeping", format!("limit({}) after {} bytes ({}): limit() = {}", lim, went, inner.dump(), left));
                         }
@@ -864,7 +888,7 @@ pub fn run(plan: &J, given: Option<&[J]>, rng: &mut Rng, max_ops: usize, journal
                             wcheck(&mut cx, &mut c, &sub, "chain_mut(tmp)");
                             f = if cx.viol.len() == nv { do_wop(&mut cx, &mut c, &mut sub, &mut written, &mut puts, &inner, "chain_mut(tmp)") } else { WFlow::End };
                             if cx.viol.len() == nv {
-                                if let WFlow::Continue = f {
+                                if let WFlow::Continue | WFlow::Refused = f {
                                     wcheck(&mut cx, &mut c, &sub, "chain_mut(tmp) after op");
                                 }
                             }
@@ -875,7 +899,7 @@ pub fn run(plan: &J, given: Option<&[J]>, rng: &mut Rng, max_ops: usize, journal
                         }
                         if let (Tm::Chain(_, bb), true) = (&sub, cx.viol.len() == nv) {
                             if let Tm::Fixed { filled, cap } = **bb {
-                                if let WFlow::Continue = f {
+                                if let WFlow::Continue | WFlow::Refused = f {
                                     if b_left != cap - filled {
                                         cx.v(&["C12"], "chain-halves-advanced", format!("chain_mut(tmp): second half has room for {}, expected {}", b_left, cap - filled));
                                     }
@@ -927,7 +951,11 @@ pub fn run(plan: &J, given: Option<&[J]>, rng: &mut Rng, max_ops: usize, journal
             digest.u64(rt::fnv(&written));
             match flow {
                 WFlow::End => ended = true,
-                WFlow::Continue => {
+                WFlow::Continue | WFlow::Refused => {
+                    if let WFlow::Refused = flow {
+                        cx.room_before_panic = None;
+                        cx.hit("refused_write_then_continued");
+                    }
                     if cx.viol.is_empty() {
                         wcheck(&mut cx, &mut node, &tm, &format!("after {}", op.dump()));
                     }
